@@ -58,6 +58,10 @@ type recorder struct {
 	canaries []map[string]interface{}
 	skipped  int
 	rng      *rand.Rand
+
+	pevEvery    int
+	pevCanaries []int
+	tokCanaries []int
 }
 
 func (r *recorder) emit(ev map[string]interface{}) int {
@@ -84,10 +88,32 @@ func (r *recorder) run(text string, doc interface{}, reps int, canary string) {
 		return
 	}
 	r.h++
-	jp, cerr, co := compileObs(text)
-	ev := map[string]interface{}{"op": "Compile", "h": r.h, "text": bytesToCps(text), "ok": co.Kind == "ok", "ast": []interface{}{}, "offset": -1, "toks": []interface{}{}}
+	var jp *jmespath.JMESPath
+	var cerr error
+	var co Obs
+	pev := recordParse(func() { jp, cerr, co = compileObs(text) })
+	ev := map[string]interface{}{"op": "Compile", "h": r.h, "text": bytesToCps(text), "ok": co.Kind == "ok", "ast": []interface{}{}, "offset": -1, "toks": []interface{}{},
+		"pev": []interface{}{}, "hasPev": pev != nil}
+	if pev != nil {
+		// every 97th compile with parser steps carries a corrupted step sequence: Trace_Parse must report it
+		if r.pevEvery > 0 && len(pev) > 0 && r.h%r.pevEvery == 0 {
+			pev = append(pev, []interface{}{"nud", "canary"})
+			r.pevCanaries = append(r.pevCanaries, r.line+1)
+		}
+		ev["pev"] = pev
+	}
 	if direct(func() (interface{}, error) { ev["toks"] = realTokens(text); return nil, nil }).Kind != "ok" {
 		ev["toks"] = []interface{}{}
+	}
+	if tl, ok := ev["toks"].([]interface{}); ok && r.pevEvery > 0 && len(tl) > 0 && r.h%r.pevEvery == r.pevEvery/2 {
+		// a corrupted token stream (position of the first token shifted): the lexer machine must report it
+		if t0, ok := tl[0].([]interface{}); ok && len(t0) == 4 {
+			c := append([]interface{}{}, t0...)
+			c[2] = toInt(c[2]) + 1
+			tl2 := append([]interface{}{c}, tl[1:]...)
+			ev["toks"] = tl2
+			r.tokCanaries = append(r.tokCanaries, r.line+1)
+		}
 	}
 	if se, ok := cerr.(jmespath.SyntaxError); ok {
 		ev["offset"] = se.Offset
@@ -288,6 +314,8 @@ func cmdRecord(args []string) int {
 	repo := fs.String("repo", "/repo", "repository (compliance corpus)")
 	corpus := fs.Bool("corpus", true, "include the compliance corpus")
 	canEvery := fs.Int("canary-every", 400, "inject a canary every N expressions")
+	pevEvery := fs.Int("pev-canary-every", 0, "corrupt the logged parser steps of every Nth compile (Trace_Parse must report each)")
+	mutants := fs.Int("mutants", 0, "number of near-miss texts (one character deleted / inserted / replaced) that are only compiled")
 	fs.Parse(args)
 	f, err := os.Create(*out)
 	if err != nil {
@@ -295,7 +323,7 @@ func cmdRecord(args []string) int {
 		return 2
 	}
 	defer f.Close()
-	r := &recorder{enc: json.NewEncoder(f), rng: rand.New(rand.NewSource(*seed))}
+	r := &recorder{enc: json.NewEncoder(f), rng: rand.New(rand.NewSource(*seed)), pevEvery: *pevEvery}
 	count := 0
 	can := func() string {
 		count++
@@ -333,10 +361,39 @@ func cmdRecord(args []string) int {
 		d := r.value(3)
 		r.run(e, d, 1+r.rng.Intn(2), can())
 	}
+	const punct = ".[]()*|&,:{}?!<>=@`'\" 0a-"
+	for i := 0; i < *mutants; i++ {
+		e := []byte(r.expr(2 + r.rng.Intn(4)))
+		if len(e) == 0 {
+			continue
+		}
+		k := r.rng.Intn(len(e))
+		switch r.rng.Intn(3) {
+		case 0:
+			e = append(e[:k:k], e[k+1:]...)
+		case 1:
+			e = append(e[:k:k], append([]byte{punct[r.rng.Intn(len(punct))]}, e[k:]...)...)
+		default:
+			e[k] = punct[r.rng.Intn(len(punct))]
+		}
+		r.run(string(e), nil, 1, "")
+	}
 	if *meta != "" {
-		b, _ := json.Marshal(map[string]interface{}{"canaries": r.canaries, "lines": r.line, "skipped_unrepresentable": r.skipped, "handles": r.h})
+		b, _ := json.Marshal(map[string]interface{}{"canaries": r.canaries, "pev_canaries": r.pevCanaries, "tok_canaries": r.tokCanaries, "lines": r.line, "skipped_unrepresentable": r.skipped, "handles": r.h})
 		os.WriteFile(*meta, b, 0o644)
 	}
 	_ = reflect.DeepEqual
+	return 0
+}
+
+func toInt(v interface{}) int {
+	switch x := v.(type) {
+	case int:
+		return x
+	case int64:
+		return int(x)
+	case float64:
+		return int(x)
+	}
 	return 0
 }
